@@ -13,6 +13,14 @@ package connectconformance
 //   deviation  every single deviation the statement lists, applied at every
 //              position, fails AND the failure text names the discrepancy.
 //
+//   code route every E with an error is met again under other_allowed_error_codes
+//              lists of 1, 2 and 3 alternatives (and its own list) with the
+//              reported code being the primary one / each alternative; every
+//              leniency and every deviation above is applied on top and must
+//              keep its verdict (an allowed alternative waives the code only);
+//   history    two assertions in one process: the verdict of the second one is
+//              the verdict it gets in a fresh state (c03History*).
+//
 // The rewrites, the deviations and the tokens that a failure text must contain
 // are written from the property statement, the proto comments and docs/; nothing
 // here is derived from results.go except the call signature and the three
@@ -25,6 +33,7 @@ import (
 	"encoding/json"
 	"fmt"
 	"os"
+	"os/exec"
 	"path/filepath"
 	"sort"
 	"strconv"
@@ -195,7 +204,7 @@ var c03GrammarDims = []struct {
 	{"st", 5}, // stream type
 	{"p", 4},  // payload count 0..3
 	{"e", 7},  // error shape
-	{"o", 3},  // other allowed codes
+	{"o", 4},  // other allowed codes (none, 1, 2, 3 entries)
 	{"m", 6},  // metadata shape
 	{"r", 5},  // request info shape
 	{"h", 2},  // http status
@@ -289,6 +298,8 @@ func c03GrammarBuild(c []int) *conformancev1.TestCase {
 		otherCodes = []conformancev1.Code{conformancev1.Code_CODE_UNKNOWN}
 	case 2:
 		otherCodes = []conformancev1.Code{conformancev1.Code_CODE_INTERNAL, conformancev1.Code_CODE_UNAVAILABLE}
+	case 3:
+		otherCodes = []conformancev1.Code{conformancev1.Code_CODE_DEADLINE_EXCEEDED, conformancev1.Code_CODE_UNKNOWN, conformancev1.Code_CODE_UNIMPLEMENTED}
 	}
 	// metadata
 	switch meta {
@@ -1322,6 +1333,79 @@ type c03Replay struct {
 	Kind    string `json:"kind"`
 	Pos     string `json:"pos"`
 	Variant string `json:"variant"`
+	// code route: Overlay = number of alternatives of the other_allowed_error_codes list laid over the
+	// definition (0: the definition's own list); Route = which code the result reports (0: the primary
+	// one or whatever the rewrite sets, i: the i-th alternative of the list)
+	Overlay int `json:"overlay,omitempty"`
+	Route   int `json:"route,omitempty"`
+	// a two-call history (phase H) instead of a single assertion
+	History *c03HistReplay `json:"history,omitempty"`
+}
+
+// ---------------------------------------------------------------------------
+// code routes
+// ---------------------------------------------------------------------------
+//
+// "Alternative allowed error codes" is a leniency about the CODE: when the
+// reported code is one of other_allowed_error_codes the code comparison passes,
+// and everything else of the statement stays as it is. So for every expected
+// result with an error, under every list of alternatives and with every member
+// of the list reported in place of the primary code, every other leniency must
+// still pass and every other deviation must still fail and be named.
+
+type c03Frame struct {
+	Overlay int
+	Route   int
+	Def     *conformancev1.TestCase
+	Alt     conformancev1.Code // Route > 0: the code reported
+}
+
+// alternatives laid over a definition: the first n of these that differ from the primary code
+var c03OverlayCodes = []conformancev1.Code{
+	conformancev1.Code_CODE_UNKNOWN, conformancev1.Code_CODE_UNAVAILABLE, conformancev1.Code_CODE_INTERNAL, conformancev1.Code_CODE_DEADLINE_EXCEEDED,
+}
+
+func c03OverlayList(primary conformancev1.Code, n int) []conformancev1.Code {
+	var out []conformancev1.Code
+	for _, c := range c03OverlayCodes {
+		if c != primary && len(out) < n {
+			out = append(out, c)
+		}
+	}
+	return out
+}
+
+// c03Frames: frame 0 is the definition as it is with the primary code. For an
+// expectation with an error: its own list with each alternative reported, then
+// lists of 1, 2 (thorough) and 3 alternatives with the primary code and with
+// each alternative reported.
+func c03Frames(def *conformancev1.TestCase, overlays []int) []c03Frame {
+	frames := []c03Frame{{Def: def}}
+	want := def.ExpectedResponse.GetError()
+	if want == nil {
+		return frames
+	}
+	routes := func(overlay int, d *conformancev1.TestCase, from int) {
+		if from == 0 {
+			frames = append(frames, c03Frame{Overlay: overlay, Def: d})
+		}
+		for i, c := range d.OtherAllowedErrorCodes {
+			if c != want.Code {
+				frames = append(frames, c03Frame{Overlay: overlay, Route: i + 1, Def: d, Alt: c})
+			}
+		}
+	}
+	routes(0, def, 1)
+	for _, n := range overlays {
+		d := &conformancev1.TestCase{Request: def.Request, ExpectedResponse: def.ExpectedResponse, OtherAllowedErrorCodes: c03OverlayList(want.Code, n)}
+		routes(n, d, 0)
+	}
+	return frames
+}
+
+// rewrites that decide the reported code themselves (or remove the error) are not combined with a route
+func c03SetsCode(kind string) bool {
+	return kind == "error-code" || kind == "other-allowed-code" || kind == "error-removed"
 }
 
 func c03Show(m proto.Message) string {
@@ -1364,6 +1448,323 @@ func c03StreamName(def *conformancev1.TestCase) string {
 }
 
 // ---------------------------------------------------------------------------
+// phase H: two-call histories
+// ---------------------------------------------------------------------------
+//
+// The statement speaks of comparing A reported result with THE expected one: the
+// verdict is a function of the pair, not of what was compared before. One
+// assertion C1 followed by a second assertion C2 in the same process must give
+// C2 the verdict it gets when nothing was asserted before ("cold").
+//
+// A comparison is (place, expected values, reported values) of one name: place =
+// response header / response trailer / echoed request header / echoed query
+// parameter; the value lists come from an alphabet of shapes rich in commas,
+// blanks at the edge of a value, empty values and zero values. The shapes are
+// instantiated with tokens: C1 and C2 of one history share their tokens (so
+// "p, q" in C1 and "p"," q" in C2 are made of the same pieces), every history
+// and every cold evaluation gets tokens never used before in the process. The
+// cold verdict of a comparison is taken
+//   * in this process, with fresh tokens, when both lists contain a token: no
+//     earlier assertion involved these strings; the verdict does not depend on
+//     how the pieces are spelled;
+//   * in a child process (this test binary re-executed, one comparison per
+//     process) when a list has no token to make it fresh ([] and [""]).
+// Where the statement fixes the verdict (identical lists pass; values joined or
+// split on "," / ", " pass for metadata; a removed, altered or swapped piece
+// fails) the cold verdict is checked against that as well.
+
+var c03HistPlaces = []string{"header", "trailer", "request-header", "query-param"}
+
+// value-list shapes; P and Q stand for tokens
+var c03HistShapesQuick = [][]string{
+	{}, {""}, {"P"}, {"P, Q"}, {"P", "Q"}, {"P", " Q"}, {"P ", "Q"}, {"P ,Q"}, {"P,Q"}, {"Q", "P"},
+}
+
+var c03HistShapesMore = [][]string{
+	{"P,", " Q"}, {"P", ""}, {"", "P"}, {" P"}, {"P,,Q"}, {"P", "Q "},
+}
+
+func c03HistShapes(full bool) [][]string {
+	if full {
+		return append(append([][]string{}, c03HistShapesQuick...), c03HistShapesMore...)
+	}
+	return c03HistShapesQuick
+}
+
+type c03HistCmp struct {
+	Place int      `json:"place"`
+	Exp   []string `json:"expected_values"` // shapes (P, Q) or, in the child, instantiated values
+	Act   []string `json:"reported_values"`
+}
+
+type c03HistReplay struct {
+	First  c03HistCmp `json:"first"`
+	Second c03HistCmp `json:"second"`
+}
+
+func c03HistHasToken(shape []string) bool {
+	for _, v := range shape {
+		if strings.ContainsAny(v, "PQ") {
+			return true
+		}
+	}
+	return false
+}
+
+func c03HistInst(shape []string, n int64) []string {
+	if len(shape) == 0 {
+		return nil
+	}
+	rp := strings.NewReplacer("P", fmt.Sprintf("p%d", n), "Q", fmt.Sprintf("q%d", n))
+	out := make([]string, len(shape))
+	for i, v := range shape {
+		out[i] = rp.Replace(v)
+	}
+	return out
+}
+
+// c03HistBuild: a successful unary result carrying one name with the given values at the place.
+func c03HistBuild(place int, exp, act []string) (*conformancev1.TestCase, *c03Result) {
+	mk := func(vals []string) *c03Result {
+		hs := c03Headers{{Name: "x-hist", Value: vals}}
+		res := &c03Result{Payloads: []*conformancev1.ConformancePayload{{Data: []byte("data-0")}}}
+		switch place {
+		case 0:
+			res.ResponseHeaders = hs
+		case 1:
+			res.ResponseTrailers = hs
+		case 2:
+			res.Payloads[0].RequestInfo = &c03Info{RequestHeaders: hs}
+		case 3:
+			res.Payloads[0].RequestInfo = &c03Info{ConnectGetInfo: &conformancev1.ConformancePayload_ConnectGetInfo{QueryParams: hs}}
+		default:
+			panic(place)
+		}
+		return res
+	}
+	def := &conformancev1.TestCase{
+		Request:          &conformancev1.ClientCompatRequest{StreamType: conformancev1.StreamType_STREAM_TYPE_UNARY},
+		ExpectedResponse: mk(exp),
+	}
+	return def, mk(act)
+}
+
+// c03HistVerdict: "pass", "fail" or "panic: ..." of one assertion with the values as given.
+func c03HistVerdict(c c03HistCmp) (verdict, text string) {
+	def, actual := c03HistBuild(c.Place, c.Exp, c.Act)
+	failure, panicked := c03Assert(def, actual)
+	switch {
+	case panicked != nil:
+		return fmt.Sprintf("panic: %v", panicked), ""
+	case failure != nil:
+		return "fail", failure.Error()
+	}
+	return "pass", ""
+}
+
+// c03HistPieces: the members of a list under the joined-or-split reading; clean = every value is
+// made of non-empty members without blanks at their edges, joined by "," or ", ".
+func c03HistPieces(vals []string) (pieces []string, clean, commaFree bool) {
+	clean, commaFree = true, true
+	for _, v := range vals {
+		parts := strings.Split(v, ",")
+		if len(parts) > 1 {
+			commaFree = false
+		}
+		for i, part := range parts {
+			if i > 0 {
+				part = strings.TrimPrefix(part, " ")
+			}
+			if part == "" || part != strings.TrimSpace(part) {
+				clean = false
+			}
+			pieces = append(pieces, part)
+		}
+	}
+	return pieces, clean, commaFree
+}
+
+// c03HistModel: "pass" / "fail" where the statement fixes the verdict, "" where it does not
+// (blanks at the edge of a value, empty values, more values than expected, joined values of a
+// query parameter).
+func c03HistModel(place int, exp, act []string) string {
+	if c03SameStrings(exp, act) {
+		return "pass"
+	}
+	pe, cleanE, freeE := c03HistPieces(exp)
+	pa, cleanA, freeA := c03HistPieces(act)
+	if !cleanE || !cleanA {
+		return ""
+	}
+	if place == 3 && !(freeE && freeA) {
+		return "" // the joined-or-split leniency is stated for metadata
+	}
+	if c03SameStrings(pe, pa) {
+		return "pass"
+	}
+	if len(pa) <= len(pe) {
+		return "fail" // a piece is missing, altered or out of order
+	}
+	return ""
+}
+
+// c03HistChild runs a sequence of comparisons in a fresh process (this test binary re-executed)
+// and returns their verdicts.
+func c03HistChild(seq []c03HistCmp) ([]string, error) {
+	in, err := json.Marshal(seq)
+	if err != nil {
+		return nil, err
+	}
+	cmd := exec.Command(os.Args[0], "-test.run", "^TestVerifC03Child$", "-test.count=1", "-test.timeout", "120s")
+	for _, kv := range os.Environ() {
+		if strings.HasPrefix(kv, "VERIF_REPORT=") || strings.HasPrefix(kv, "VERIF_REPLAY=") || strings.HasPrefix(kv, "C03_CHILD=") {
+			continue
+		}
+		cmd.Env = append(cmd.Env, kv)
+	}
+	cmd.Env = append(cmd.Env, "C03_CHILD="+string(in))
+	out, err := cmd.CombinedOutput()
+	if err != nil {
+		return nil, fmt.Errorf("child process: %v\n%s", err, c03Clip(string(out), 2000))
+	}
+	var verdicts []string
+	for _, line := range strings.Split(string(out), "\n") {
+		if rest, ok := strings.CutPrefix(line, "C03CHILD "); ok {
+			verdicts = append(verdicts, rest)
+		}
+	}
+	if len(verdicts) != len(seq) {
+		return nil, fmt.Errorf("child process printed %d verdicts for %d comparisons:\n%s", len(verdicts), len(seq), c03Clip(string(out), 2000))
+	}
+	return verdicts, nil
+}
+
+// TestVerifC03Child is the child side of c03HistChild; it does nothing unless C03_CHILD is set.
+func TestVerifC03Child(t *testing.T) {
+	in := os.Getenv("C03_CHILD")
+	if in == "" {
+		return
+	}
+	var seq []c03HistCmp
+	if err := json.Unmarshal([]byte(in), &seq); err != nil {
+		t.Fatalf("bad C03_CHILD: %v", err)
+	}
+	for _, c := range seq {
+		verdict, _ := c03HistVerdict(c)
+		fmt.Println("C03CHILD " + verdict)
+	}
+}
+
+func c03HistShow(c c03HistCmp) string {
+	return fmt.Sprintf("%s x-hist: expected values %q, reported values %q", c03HistPlaces[c.Place], c.Exp, c.Act)
+}
+
+// c03HistoryPhase: every ordered pair (C1, C2) of comparisons; sharded by C2.
+func c03HistoryPhase(t *testing.T, r *rep.Report, replay *c03HistReplay, deadline time.Time) {
+	shapes := c03HistShapes(rep.Thorough() || replay != nil)
+	var cmps []c03HistCmp
+	for place := range c03HistPlaces {
+		for _, e := range shapes {
+			for _, a := range shapes {
+				cmps = append(cmps, c03HistCmp{Place: place, Exp: e, Act: a})
+			}
+		}
+	}
+	if r.Shard == 0 {
+		r.Count("history_comparisons", int64(len(cmps)))
+		r.Count("history_value_list_shapes", int64(len(shapes)))
+	}
+	var tok int64
+	inst := func(c c03HistCmp, n int64) c03HistCmp {
+		return c03HistCmp{Place: c.Place, Exp: c03HistInst(c.Exp, n), Act: c03HistInst(c.Act, n)}
+	}
+	cold := func(c c03HistCmp) string {
+		if c03HistHasToken(c.Exp) && c03HistHasToken(c.Act) {
+			tok++
+			v, _ := c03HistVerdict(inst(c, tok))
+			return v
+		}
+		tok++
+		vs, err := c03HistChild([]c03HistCmp{inst(c, tok)})
+		if err != nil {
+			t.Fatalf("cold verdict of %s: %v", c03HistShow(c), err)
+		}
+		r.Count("history_cold_verdicts_from_a_child_process", 1)
+		return vs[0]
+	}
+	one := func(c1, c2 c03HistCmp, coldVerdict string) {
+		tok++
+		first, second := inst(c1, tok), inst(c2, tok)
+		v1, _ := c03HistVerdict(first)
+		v2, text := c03HistVerdict(second)
+		r.Eval(1)
+		r.NonTrivial("")
+		r.Outcome("history:" + c03HistPlaces[c1.Place] + "->" + c03HistPlaces[c2.Place] + ":second-" + strings.SplitN(v2, ":", 2)[0])
+		rp := c03Replay{ID: "history", Source: "history", Class: "history", History: &c03HistReplay{First: c1, Second: c2}}
+		if replay != nil {
+			fmt.Printf("REPLAY history\n  first:  %s -> %s\n  second: %s -> %s %s\n  second in a fresh state: %s\n", c03HistShow(first), v1, c03HistShow(second), v2, text, coldVerdict)
+		}
+		if strings.HasPrefix(v1, "panic") || strings.HasPrefix(v2, "panic") {
+			r.Violate("panic:history", fmt.Sprintf("assert panicked in the history\n  first:  %s -> %s\n  second: %s -> %s", c03HistShow(first), v1, c03HistShow(second), v2), rp)
+			return
+		}
+		if v2 != coldVerdict {
+			what := "a deviation is accepted"
+			if v2 == "fail" {
+				what = "an accepted result is refused"
+			}
+			r.Violate("verdict-depends-on-history:"+c03HistPlaces[c2.Place],
+				fmt.Sprintf("the verdict of an assertion depends on an assertion made before it in the same process (%s)\n  first assertion:  %s -> %s\n  second assertion: %s -> %s %s\n  the second assertion alone, in a fresh state: %s",
+					what, c03HistShow(first), v1, c03HistShow(second), v2, c03Clip(text, 400), coldVerdict), rp)
+		}
+	}
+	if replay != nil {
+		// fresh process: the history first, then the cold verdict from a child
+		vs, err := c03HistChild([]c03HistCmp{inst(replay.Second, 1)})
+		if err != nil {
+			t.Fatalf("cold verdict: %v", err)
+		}
+		tok = 1
+		one(replay.First, replay.Second, vs[0])
+		return
+	}
+	var mine int64
+	for i2, c2 := range cmps {
+		if !r.Mine(int64(i2) + 1) {
+			continue
+		}
+		if !deadline.IsZero() && time.Now().After(deadline) {
+			r.NotExhaustive("budget reached in the two-call histories")
+			return
+		}
+		coldVerdict := cold(c2)
+		if strings.HasPrefix(coldVerdict, "panic") {
+			r.Violate("panic:history", fmt.Sprintf("assert panicked: %s -> %s", c03HistShow(c2), coldVerdict), c03Replay{ID: "history", Source: "history", Class: "history", History: &c03HistReplay{First: c2, Second: c2}})
+			continue
+		}
+		r.Outcome("history:cold:" + c03HistPlaces[c2.Place] + ":" + coldVerdict)
+		if want := c03HistModel(c2.Place, c2.Exp, c2.Act); want != "" {
+			r.Count("history_cold_verdicts_fixed_by_the_statement", 1)
+			if want != coldVerdict {
+				key := "deviation-accepted:" + c03HistPlaces[c2.Place] + "-values"
+				if want == "pass" {
+					key = "leniency-rejected:" + c03HistPlaces[c2.Place] + "-values"
+				}
+				r.Violate(key, fmt.Sprintf("%s: the statement gives %q, assert in a fresh state gives %q", c03HistShow(c2), want, coldVerdict),
+					c03Replay{ID: "history", Source: "history", Class: "history", History: &c03HistReplay{First: c2, Second: c2}})
+			}
+		}
+		for _, c1 := range cmps {
+			one(c1, c2, coldVerdict)
+			mine++
+			if mine%2048 == 1 {
+				r.Sample(map[string]any{"history": c03HistReplay{First: c1, Second: c2}, "second_in_a_fresh_state": coldVerdict})
+			}
+		}
+	}
+}
+
+// ---------------------------------------------------------------------------
 // the check
 // ---------------------------------------------------------------------------
 
@@ -1378,6 +1779,7 @@ func TestVerifC03(t *testing.T) {
 		"the size-limit expectations come last and, in the quick tier, get only the identity and (unary, full-duplex) the payload / echoed-request deviations. " +
 		"distinct_nontrivial counts (E, kind, position, variant) tuples whose rewritten actual result differs (proto.Equal) from E; identity pairs are evaluated but not counted."
 
+	startAll := time.Now()
 	var replay *c03Replay
 	if data := rep.ReplayInput(); data != nil {
 		var rf struct {
@@ -1387,6 +1789,20 @@ func TestVerifC03(t *testing.T) {
 			t.Fatalf("bad replay file: %v", err)
 		}
 		replay = &rf.Replay
+	}
+
+	// phase H first: the process is still fresh
+	if replay == nil || replay.History != nil {
+		var hr *c03HistReplay
+		if replay != nil {
+			hr = replay.History
+		}
+		startH := time.Now()
+		c03HistoryPhase(t, r, hr, rep.Deadline())
+		r.Count("history_phase_ms_summed_over_shards", time.Since(startH).Milliseconds())
+		if replay != nil {
+			return
+		}
 	}
 
 	corpus, stats, err := c03LoadCorpus()
@@ -1421,29 +1837,49 @@ func TestVerifC03(t *testing.T) {
 	deadline := rep.Deadline()
 	var k, mine, skippedBig int64
 	sampled := map[string]bool{}
-	evalOne := func(e *c03Expected, m *c03Mut) {
+	evalOne := func(e *c03Expected, fr *c03Frame, m *c03Mut) {
 		// m == nil: identity
-		rp := c03Replay{ID: e.ID, Source: e.Source, Class: "identity"}
-		actual := proto.Clone(e.Def.ExpectedResponse).(*c03Result)
+		def := fr.Def
+		rp := c03Replay{ID: e.ID, Source: e.Source, Class: "identity", Overlay: fr.Overlay, Route: fr.Route}
+		actual := proto.Clone(def.ExpectedResponse).(*c03Result)
 		if m != nil {
-			rp = c03Replay{ID: e.ID, Source: e.Source, Class: m.Class, Kind: m.Kind, Pos: m.Pos, Variant: m.Variant}
+			rp = c03Replay{ID: e.ID, Source: e.Source, Class: m.Class, Kind: m.Kind, Pos: m.Pos, Variant: m.Variant, Overlay: fr.Overlay, Route: fr.Route}
 			m.apply(actual)
-			if proto.Equal(actual, e.Def.ExpectedResponse) {
+		}
+		if fr.Route > 0 {
+			// the result reports the alternative instead of the primary code
+			if actual.Error == nil {
+				return
+			}
+			actual.Error.Code = fr.Alt
+			if m == nil {
+				rp.Class, rp.Kind, rp.Pos, rp.Variant = "leniency", "other-allowed-code", fmt.Sprintf("other_allowed_error_codes[%d]", fr.Route-1), "route:"+fr.Alt.String()
+			}
+		}
+		if m != nil || fr.Route > 0 {
+			if proto.Equal(actual, def.ExpectedResponse) {
 				r.Count("rewrites_without_effect", 1)
 				return
 			}
 			r.NonTrivial("")
 		}
-		failure, panicked := c03Assert(e.Def, actual)
+		if fr.Overlay > 0 || fr.Route > 0 {
+			r.Count("evaluations_under_a_code_route", 1)
+		}
+		failure, panicked := c03Assert(def, actual)
 		r.Eval(1)
 		describe := func(what string) string {
 			msg := "<nil>"
 			if failure != nil {
 				msg = c03Clip(failure.Error(), 1200)
 			}
-			return fmt.Sprintf("%s\n  case: %s %s at %s (%s); stream type %s; other allowed codes %v; source %s\n  expected: %s\n  actual:   %s\n  assert outcome: %s",
-				what, rp.Class, rp.Kind, rp.Pos, rp.Variant, c03StreamName(e.Def), e.Def.OtherAllowedErrorCodes, e.Source,
-				c03Clip(c03Show(e.Def.ExpectedResponse), 1500), c03Clip(c03Show(actual), 1500), msg)
+			route := "primary code reported"
+			if fr.Route > 0 {
+				route = fmt.Sprintf("allowed alternative #%d (%s) reported in place of the primary code", fr.Route-1, fr.Alt)
+			}
+			return fmt.Sprintf("%s\n  case: %s %s at %s (%s); stream type %s; other allowed codes %v (overlay %d); %s; source %s\n  expected: %s\n  actual:   %s\n  assert outcome: %s",
+				what, rp.Class, rp.Kind, rp.Pos, rp.Variant, c03StreamName(def), def.OtherAllowedErrorCodes, fr.Overlay, route, e.Source,
+				c03Clip(c03Show(def.ExpectedResponse), 1500), c03Clip(c03Show(actual), 1500), msg)
 		}
 		if replay != nil {
 			fmt.Println(describe("REPLAY"))
@@ -1454,15 +1890,23 @@ func TestVerifC03(t *testing.T) {
 			return
 		}
 		sampleKey := rp.Class + ":" + rp.Kind
-		if !sampled[sampleKey] && len(sampled) < 64 {
+		if fr.Route > 0 {
+			sampleKey += ":alt"
+		}
+		if !sampled[sampleKey] && len(sampled) < 96 {
 			sampled[sampleKey] = true
 			if m != nil && (len(sampled)%7 == 1 || m.Class == "deviation" && len(sampled)%5 == 0) {
 				outcome := "pass"
 				if failure != nil {
 					outcome = c03Clip(failure.Error(), 300)
 				}
-				r.Sample(map[string]any{"case": rp, "stream_type": c03StreamName(e.Def), "actual": c03Clip(c03Show(actual), 600), "outcome": outcome})
+				r.Sample(map[string]any{"case": rp, "stream_type": c03StreamName(def), "actual": c03Clip(c03Show(actual), 600), "outcome": outcome})
 			}
+		}
+		// outcome classes and violation keys of a deviation / leniency met under an allowed alternative code
+		via := ""
+		if fr.Route > 0 && !(m == nil) {
+			via = "+alternative-code"
 		}
 		switch rp.Class {
 		case "identity":
@@ -1474,77 +1918,102 @@ func TestVerifC03(t *testing.T) {
 			}
 		case "leniency":
 			if failure != nil {
-				r.Outcome("leniency:" + rp.Kind + ":fail")
-				r.Violate("leniency-rejected:"+rp.Kind, describe("a documented leniency is rejected"), rp)
+				r.Outcome("leniency:" + rp.Kind + via + ":fail")
+				r.Violate("leniency-rejected:"+rp.Kind+via, describe("a documented leniency is rejected"), rp)
 			} else {
-				r.Outcome("leniency:" + rp.Kind + ":pass")
+				r.Outcome("leniency:" + rp.Kind + via + ":pass")
 			}
 		case "deviation":
 			if failure == nil {
-				r.Outcome("deviation:" + rp.Kind + ":pass")
-				r.Violate("deviation-accepted:"+rp.Kind, describe("a deviation passes"), rp)
+				r.Outcome("deviation:" + rp.Kind + via + ":pass")
+				r.Violate("deviation-accepted:"+rp.Kind+via, describe("a deviation passes"), rp)
 				return
 			}
 			if ok, missing := c03Named(failure.Error(), m.Tokens); !ok {
-				r.Outcome("deviation:" + rp.Kind + ":fail-unnamed")
-				r.Violate("message-does-not-name:"+rp.Kind, describe("the failure text does not name the discrepancy (contains "+missing+")"), rp)
+				r.Outcome("deviation:" + rp.Kind + via + ":fail-unnamed")
+				r.Violate("message-does-not-name:"+rp.Kind+via, describe("the failure text does not name the discrepancy (contains "+missing+")"), rp)
 				return
 			}
-			r.Outcome("deviation:" + rp.Kind + ":fail-named")
+			r.Outcome("deviation:" + rp.Kind + via + ":fail-named")
 		}
 	}
 
+	// lists of alternatives laid over every expectation with an error (see c03Frames)
+	overlays := []int{1, 3}
+	if rep.Thorough() {
+		overlays = []int{1, 2, 3}
+	}
 	found := false
 outer:
 	for _, e := range all {
 		if replay != nil && e.ID != replay.ID {
 			continue
 		}
-		muts := c03Mutations(e.Def)
-		if c03IsBig(e.Def) && e.Source != "sized" && !rep.Thorough() && replay == nil {
-			// quick tier: one assert on a 200 KB expectation costs about a second of CPU, so only the
-			// rewrites that touch the padded messages are run there, on the unary and the full-duplex
-			// expectation; the identity is run on all five
-			st := e.Def.Request.GetStreamType()
-			stKept := st == conformancev1.StreamType_STREAM_TYPE_UNARY || st == conformancev1.StreamType_STREAM_TYPE_FULL_DUPLEX_BIDI_STREAM
-			kept := muts[:0]
-			for _, m := range muts {
-				if stKept && (strings.HasPrefix(m.Kind, "payload-") || strings.HasPrefix(m.Kind, "echoed-request-")) {
-					kept = append(kept, m)
-				} else {
-					skippedBig++
-				}
-			}
-			muts = kept
+		bigQuick := c03IsBig(e.Def) && e.Source != "sized" && !rep.Thorough() && replay == nil
+		frames := c03Frames(e.Def, overlays)
+		if replay != nil {
+			frames = c03Frames(e.Def, []int{1, 2, 3})
 		}
-		for i := -1; i < len(muts); i++ {
-			var m *c03Mut
-			if i >= 0 {
-				m = &muts[i]
-			}
-			if replay != nil {
-				if m == nil && replay.Class != "identity" {
-					continue
-				}
-				if m != nil && (m.Class != replay.Class || m.Kind != replay.Kind || m.Pos != replay.Pos || m.Variant != replay.Variant) {
-					continue
-				}
-				found = true
-				evalOne(e, m)
-				break outer
-			}
-			k++
-			if !r.Mine(k) {
+		if bigQuick {
+			frames = frames[:1] // the 200 KB expectations meet the code routes in the thorough tier
+		}
+		for fi := range frames {
+			fr := &frames[fi]
+			if replay != nil && (fr.Overlay != replay.Overlay || fr.Route != replay.Route) {
 				continue
 			}
-			mine++
-			if !deadline.IsZero() && (mine%64 == 0 || c03IsBig(e.Def)) && time.Now().After(deadline) {
-				r.NotExhaustive(fmt.Sprintf("budget reached in expected result %s (order: corpus, grammar simplest first, size-limit cases of the corpus last)", e.ID))
-				break outer
+			muts := c03Mutations(fr.Def)
+			if bigQuick {
+				// quick tier: one assert on a 200 KB expectation costs about a second of CPU, so only the
+				// rewrites that touch the padded messages are run there, on the unary and the full-duplex
+				// expectation; the identity is run on all five
+				st := e.Def.Request.GetStreamType()
+				stKept := st == conformancev1.StreamType_STREAM_TYPE_UNARY || st == conformancev1.StreamType_STREAM_TYPE_FULL_DUPLEX_BIDI_STREAM
+				kept := muts[:0]
+				for _, m := range muts {
+					if stKept && (strings.HasPrefix(m.Kind, "payload-") || strings.HasPrefix(m.Kind, "echoed-request-")) {
+						kept = append(kept, m)
+					} else {
+						skippedBig++
+					}
+				}
+				muts = kept
 			}
-			evalOne(e, m)
+			for i := -1; i < len(muts); i++ {
+				var m *c03Mut
+				if i >= 0 {
+					m = &muts[i]
+					if fr.Route > 0 && c03SetsCode(m.Kind) {
+						continue
+					}
+				}
+				if replay != nil {
+					// (an identity met under a route is recorded as the leniency other-allowed-code)
+					routeIdentity := m == nil && fr.Route > 0 && replay.Class == "leniency" && replay.Kind == "other-allowed-code" && strings.HasPrefix(replay.Variant, "route:")
+					if m == nil && replay.Class != "identity" && !routeIdentity {
+						continue
+					}
+					if m != nil && (m.Class != replay.Class || m.Kind != replay.Kind || m.Pos != replay.Pos || m.Variant != replay.Variant) {
+						continue
+					}
+					found = true
+					evalOne(e, fr, m)
+					break outer
+				}
+				k++
+				if !r.Mine(k) {
+					continue
+				}
+				mine++
+				if !deadline.IsZero() && (mine%64 == 0 || c03IsBig(e.Def)) && time.Now().After(deadline) {
+					r.NotExhaustive(fmt.Sprintf("budget reached in expected result %s (order: corpus, grammar simplest first, size-limit cases of the corpus last)", e.ID))
+					break outer
+				}
+				evalOne(e, fr, m)
+			}
 		}
 	}
+	r.Count("whole_run_ms_summed_over_shards", time.Since(startAll).Milliseconds())
 	if r.Shard == 0 {
 		r.Count("size_limit_rewrites_left_to_thorough_tier", skippedBig)
 	}
